@@ -82,8 +82,8 @@ func buildNatives() map[string]nativeFn {
 		return nil
 	})
 	rt("Fail", func(in *Interp, fn *ssa.Function, a []Value) Value {
-		detail := in.show(a[1])
-		in.assert(in.C.False, in.concStr(a[0], "assert id"), detail)
+		in.P.failDetail = a[1]
+		in.assert(in.C.False, in.concStr(a[0], "assert id"), "")
 		return nil
 	})
 	rt("Cover", func(in *Interp, fn *ssa.Function, a []Value) Value {
